@@ -696,6 +696,74 @@ impl<'a> Interp<'a> {
                     if !qr && sec != 3 {
                         return Ok(true); // QR gating (domain restriction 1)
                     }
+                    if src.chance(30) {
+                        // a record built through the synthesis builders (RRHeader + RR::new / A::build / NS::build):
+                        // labels of 1..64 bytes, i.e. up to one past what the wire format can hold
+                        let k = src.range(1, 3);
+                        let labels: Vec<Vec<u8>> = (0..k)
+                            .map(|_| {
+                                let l = *src.pick(&[1usize, 5, 30, 61, 62, 63, 64]);
+                                (0..l).map(|_| *src.pick(b"abcxyz0189")).collect()
+                            })
+                            .collect();
+                        let maxl = labels.iter().map(|l| l.len()).max().unwrap_or(0);
+                        let owner_text: Vec<u8> = labels.join(&b'.');
+                        let ttl = src.u32();
+                        let (rec, built): (Record, Result<Result<dgen::RR, String>, String>) = match src.below(3) {
+                            0 => {
+                                let ip = [src.u8(), src.u8(), src.u8(), src.u8()];
+                                let h = dgen::RRHeader { name: owner_text.clone(), ttl, class: Class::IN, rr_type: Type::A };
+                                (Record { owner: Name(labels.clone()), rtype: T_A, class: 1, ttl, rdata: Rdata::A(ip) }, catch(|| dgen::A::build(h, Ipv4Addr::from(ip)).map_err(|e| e.to_string())))
+                            }
+                            1 => {
+                                let h = dgen::RRHeader { name: owner_text.clone(), ttl, class: Class::IN, rr_type: Type::NS };
+                                let target = Name::from_dotted("ns1.example.com");
+                                (Record { owner: Name(labels.clone()), rtype: T_NS, class: 1, ttl, rdata: Rdata::Name1(target) }, catch(|| dgen::NS::build(h, b"ns1.example.com".to_vec()).map_err(|e| e.to_string())))
+                            }
+                            _ => {
+                                let data = vec![3, b'a', 0xc0, 0x0c];
+                                let h = dgen::RRHeader { name: owner_text.clone(), ttl, class: Class::IN, rr_type: Type::TXT };
+                                (Record { owner: Name(labels.clone()), rtype: T_TXT, class: 1, ttl, rdata: Rdata::Opaque(data.clone()) }, catch(|| dgen::RR::new(h, &data).map_err(|e| e.to_string())))
+                            }
+                        };
+                        self.trace.push(format!("insert(sec{} built record, owner labels {:?}, type {})", sec, labels.iter().map(|l| l.len()).collect::<Vec<_>>(), rec.rtype));
+                        let rr = match built {
+                            Err(pm) => fail!(format!("{} builder-panic {}", id, panic_sig(&pm)), "{} {}", pm, short(&self.ctx())),
+                            Ok(Err(e)) => {
+                                // 63-byte labels are refused by the pinned library (C14 judges that); shorter ones must build
+                                ensure!(maxl >= 63, format!("{} build-of-valid-record-fails", id), "{:?} {}", e, short(&self.ctx()));
+                                self.st.class("note:builder-refused-long-label");
+                                return Ok(true);
+                            }
+                            Ok(Ok(rr)) => rr,
+                        };
+                        ensure!(maxl <= 63, format!("{} builder-accepted-a-label-over-63-bytes", id), "RR::new/build returned Ok for an owner with a {}-byte label; {}", maxl, short(&self.ctx()));
+                        ensure!(rr.packet == rec.to_wire(), format!("{} built-record-differs", id), "got {} want {}; {}", hex_abbrev(&rr.packet), hex_abbrev(&rec.to_wire()), short(&self.ctx()));
+                        let plain_len = self.model.to_wire_plain().len();
+                        let too_large = plain_len + rr.packet.len() > 8192;
+                        let pp = &mut self.pp;
+                        let r = match catch(|| pp.insert_rr(section_of(sec), rr).map_err(estr)) {
+                            Err(pm) => fail!(format!("{} insert-panic {}", if too_large { "C10" } else { id }, panic_sig(&pm)), "{} {}", pm, short(&self.ctx())),
+                            Ok(r) => r,
+                        };
+                        match r {
+                            Ok(()) => {
+                                if too_large {
+                                    ensure!(self.which != Which::C10, "C10 size-limit-bypassed", "built record inserted although the packet exceeds 8192 bytes; {}", short(&self.ctx()));
+                                    return Err(Failure::new("SKIP", ""));
+                                }
+                                self.model.section_mut(sec).push(rec);
+                                self.note_mutation(true);
+                                self.st.class("op:insert-built-record");
+                            }
+                            Err(e) => {
+                                ensure!(too_large, format!("{} insert-of-built-record-fails", id), "{:?} {}", e, short(&self.ctx()));
+                                failed = true;
+                                self.st.class("fail:packet-too-large");
+                            }
+                        }
+                        return self.post(src, failed, &before, &before_bytes).map(|_| true);
+                    }
                     let tc = rrtext::gen_valid(src, &TextOpts::default());
                     let (text, expect_parse_ok, kind) = if want_fail && src.chance(128) {
                         let (t, k) = rrtext::damage_text(src, &tc);
@@ -1073,7 +1141,7 @@ const ASSUMPTIONS: &[&str] = &[
 ];
 
 fn ops_rule(which: Which) -> String {
-    let common = "state machine: start = accepted packet (compressed or pointer-free, OPT anywhere, sometimes > 8192 bytes) or ParsedPacket::empty() or gen::query(); 1..25 steps drawn state-dependently from header setters, set_rr_ttl, set_rr_ip, set_raw_name (grow/shrink/same length/root; question and all sections), delete (all sections incl. question and OPT), insert_rr / insert_rr_from_string (all sections), rename_with_raw_names, recompute, iterator uncompress + reads + next, getters (cache warmers). After EVERY step the bytes are decoded by the reference decoder. ";
+    let common = "state machine: start = accepted packet (compressed or pointer-free, OPT anywhere, sometimes > 8192 bytes) or ParsedPacket::empty() or gen::query(); 1..25 steps drawn state-dependently from header setters, set_rr_ttl, set_rr_ip, set_raw_name (grow/shrink/same length/root; question and all sections), delete (all sections incl. question and OPT), insert_rr / insert_rr_from_string (all sections; also records built through RRHeader + RR::new / A::build / NS::build with owner labels of 1..64 bytes), rename_with_raw_names, recompute, iterator uncompress + reads + next, getters (cache warmers). After EVERY step the bytes are decoded by the reference decoder. ";
     match which {
         Which::C08 => format!("{}Oracle: bytes accepted by the parser (when a question is present); every public offset/count/EDNS field, the three question getters, flags and all six walks equal the reference view of those bytes; maybe_compressed=false => no pointer; a cursor that set a name / decompressed still reads that record at its new offset and next() yields the follower. Non-trivial: a size-changing op followed by another read or mutation; distinct = hash(start, trace).", common),
         Which::C09 => format!("{}Oracle: the decoded message equals the abstract model updated by the specification of each op (exact; case-insensitive on names from the first rename on). Non-trivial as C08.", common),
@@ -1219,7 +1287,7 @@ pub fn check_c08(ctx: &Ctx, known: &KnownFindings) -> Report {
 
 pub fn check_c09(ctx: &Ctx, known: &KnownFindings) -> Report {
     let mut rep = check_ops(Which::C09, ctx, known, 400_000, 5_000_000, 9);
-    rep.require(&["op:set_rr_ttl", "op:set_rr_ip", "op:set_raw_name-then-set_rr_ttl-same-cursor", "op:set_raw_name-grow", "op:set_raw_name-shrink", "op:delete", "op:delete-opt", "op:insert", "op:insert-question", "op:rename"]);
+    rep.require(&["op:set_rr_ttl", "op:set_rr_ip", "op:set_raw_name-then-set_rr_ttl-same-cursor", "op:set_raw_name-grow", "op:set_raw_name-shrink", "op:delete", "op:delete-opt", "op:insert", "op:insert-built-record", "op:insert-question", "op:rename"]);
     rep
 }
 
